@@ -8,6 +8,7 @@ import StepModel.P21SafeDataLemmas
 import StepModel.P21SafeData2Lemmas
 import StepModel.P21SafeHeaderLemmas
 import StepModel.P21SafePass2Lemmas
+import StepModel.P21SafeWhole
 import StepModel.Generated.C05Buffers
 /-! # C05 — reading and writing Part 21 is memory-safe and terminates (the part Lean can carry)
 
@@ -797,6 +798,52 @@ theorem C05_appendFile_pass2_partial (ri : IS → Out LoopRes) (K : Nat) (hK : 1
     ∃ r, appendFile2 ri C05.skipInstanceSkipsComments ws C05.readCommentIters C05.maxErrorCount total (s.rest.length + 2) s = .ok r ∧
       r.s.m ≤ s.m ∧ r.steps ≤ (K + 39) * (s.rest.length + 1) + C05.readCommentIters + K + 13 :=
   appendFile2_ok ri K hK _ ws _ _ total s hri
+
+/-! ### the readers only move the get pointer
+
+`IS.whole s` = the bytes already passed (in order) followed by the bytes still to come.  Every modelled primitive (`>> ws`, `peek`,
+`get`, `>> c`, `putback`, `ignore`, `clear`, the string-literal reader, `ReadPcd`) and every loop below leaves it unchanged: the
+model never invents, drops or reorders an input byte — whatever a reader returns, what it left on the stream is the original
+input from some offset on.  (Basis of any argument about *where* a reader stops, such as "stays in the record".) -/
+
+theorem C05_input_preserved_skipInstance (cm : Bool) (iters fuel : Nat) (s : IS) (r : LoopRes)
+    (h : skipInstance cm iters fuel s = .ok r) : r.s.whole = s.whole := skipInstance_keeps cm iters fuel s r h
+
+theorem C05_input_preserved_findStartOfInstance (fuel : Nat) (s : IS) (r : LoopRes)
+    (h : findStartOfInstance fuel s = .ok r) : r.s.whole = s.whole := findStartOfInstance_keeps fuel s r h
+
+theorem C05_input_preserved_readComment (cm : Bool) (iters fuel : Nat) (s : IS) (r : LoopRes)
+    (h : readComment cm iters fuel s = .ok r) : r.s.whole = s.whole := readComment_keeps cm iters fuel s r h
+
+theorem C05_input_preserved_readTokenSeparator (cm : Bool) (iters fuel : Nat) (s : IS) (r : LoopRes)
+    (h : readTokenSeparator cm iters fuel s = .ok r) : r.s.whole = s.whole := readTokenSeparator_keeps cm iters fuel s r h
+
+/-- the `);` recovery scan in any of its three shapes (`in.clear()` included) -/
+theorem C05_input_preserved_recoveryScan (stay quotes pb : Bool) (fuel : Nat) (s : IS) (c : Byte) (r : LoopRes)
+    (h : recoveryScan stay quotes pb fuel s c = .ok r) : r.s.whole = s.whole := recoveryScan_keeps stay quotes pb fuel c s r h
+
+/-- … hence what `SkipInstance` leaves on a stream that has not failed is a suffix of what was there: it ends the record at an
+offset of the original input, never on bytes of its own making -/
+theorem C05_skipInstance_suffix (s : IS) (r : LoopRes)
+    (h : skipInstance C05.skipInstanceSkipsComments C05.readCommentIters (s.rest.length + 2) s = .ok r) (hf : r.s.fail = false) :
+    ∃ k, r.s.rest = s.rest.drop k := by
+  obtain ⟨r', h', hm⟩ := C05_terminates_skipInstance s
+  rw [h] at h'
+  cases h'
+  have hs := IS.m_le s
+  have hr : r.s.m = r.s.rest.length + 1 := by simp [IS.m, hf]
+  exact suffix_of_whole (skipInstance_keeps _ _ _ s r h) (by omega)
+
+/-- the same for `ReadTokenSeparator` (white space, comments, print control directives) -/
+theorem C05_readTokenSeparator_suffix (s : IS) (r : LoopRes)
+    (h : readTokenSeparator C05.skipInstanceSkipsComments C05.readCommentIters (s.rest.length + 2) s = .ok r) (hf : r.s.fail = false) :
+    ∃ k, r.s.rest = s.rest.drop k := by
+  obtain ⟨r', h', hm⟩ := C05_terminates_readTokenSeparator s
+  rw [h] at h'
+  cases h'
+  have hs := IS.m_le s
+  have hr : r.s.m = r.s.rest.length + 1 := by simp [IS.m, hf]
+  exact suffix_of_whole (readTokenSeparator_keeps _ _ _ s r h) (by omega)
 
 /-- regenerated facts the file-level budget relies on (not modelled proofs): the comment limit and the error cut-off
 are finite constants of the size the constant `c₂` of the linear bound absorbs, and `PushPastImbedAggr` does not
